@@ -372,7 +372,11 @@ class _InstallWrapper(IpcCommand):
             source_stat: stat result for the source file
             dest: path to the dest file
         """
-        os.utime(dest, ns=(source_stat.st_atime_ns, source_stat.st_mtime_ns))
+        os.utime(
+            dest,
+            ns=(source_stat.st_atime_ns, source_stat.st_mtime_ns),
+            follow_symlinks=False,
+        )
 
     def _is_install_allowed(self, source, source_stat, dest):
         """Determine if installing source into dest should work.
@@ -429,7 +433,11 @@ class _InstallWrapper(IpcCommand):
             # TODO: skip/warn installing empty files
             for source, dest in self._prefix_targets(files):
                 try:
-                    sstat = os.stat(source)
+                    # symlinks are installed as symlinks, never dereferenced
+                    if os.path.islink(source):
+                        sstat = os.lstat(source)
+                    else:
+                        sstat = os.stat(source)
                 except OSError as e:
                     raise IpcCommandError(f"cannot stat {source!r}: {e.strerror}")
 
